@@ -1,0 +1,93 @@
+//go:build verif
+
+package eval
+
+import (
+	"sort"
+
+	"github.com/np-guard/netpol-analyzer/pkg/netpol/eval/internal/k8s"
+	"github.com/np-guard/netpol-analyzer/pkg/netpol/internal/common"
+)
+
+// VerifState is a read-only projection of the PolicyEngine's internal state (verification builds only).
+type VerifState struct {
+	CacheKeys   []string        // sorted keys currently in the LRU cache
+	CacheVals   map[string]bool // cached verdict per key
+	CacheHits   int
+	SortedANPs  []string // names of sortedAdminNetpols, in slice order
+	ANPPrios    []int32  // priorities, same order
+	Namespaces  []string
+	Pods        []string
+	Netpols     []string // ns/name
+	HasBANP     bool
+	OwnerToPods map[string][]string
+}
+
+// VerifSnapshot returns the projection; it does not modify the engine (uses Peek, not Get).
+func (pe *PolicyEngine) VerifSnapshot() VerifState {
+	st := VerifState{CacheVals: map[string]bool{}, OwnerToPods: map[string][]string{}}
+	if pe.cache != nil && pe.cache.cache != nil {
+		for _, k := range pe.cache.cache.Keys() {
+			if v, ok := pe.cache.cache.Peek(k); ok {
+				st.CacheKeys = append(st.CacheKeys, k)
+				st.CacheVals[k] = v
+			}
+		}
+		sort.Strings(st.CacheKeys)
+		st.CacheHits = pe.cache.cacheHitsCount
+		pe.cache.RLock()
+		for o, pods := range pe.cache.ownerToPods {
+			for p := range pods {
+				st.OwnerToPods[o] = append(st.OwnerToPods[o], p)
+			}
+			sort.Strings(st.OwnerToPods[o])
+		}
+		pe.cache.RUnlock()
+	}
+	for _, a := range pe.sortedAdminNetpols {
+		st.SortedANPs = append(st.SortedANPs, a.Name)
+		st.ANPPrios = append(st.ANPPrios, a.Spec.Priority)
+	}
+	for n := range pe.namespacesMap {
+		st.Namespaces = append(st.Namespaces, n)
+	}
+	sort.Strings(st.Namespaces)
+	for p := range pe.podsMap {
+		st.Pods = append(st.Pods, p)
+	}
+	sort.Strings(st.Pods)
+	for ns, m := range pe.netpolsMap {
+		for n := range m {
+			st.Netpols = append(st.Netpols, ns+"/"+n)
+		}
+	}
+	sort.Strings(st.Netpols)
+	st.HasBANP = pe.baselineAdminNetpol != nil
+	return st
+}
+
+// VerifPolicyConnections wraps the internal Allowed/Denied/Pass bookkeeping so that the external
+// harness can drive its methods step by step (verification builds only).
+type VerifPolicyConnections struct{ pc *k8s.PolicyConnections }
+
+func VerifNewPolicyConnections() *VerifPolicyConnections {
+	return &VerifPolicyConnections{pc: k8s.NewPolicyConnections()}
+}
+func (v *VerifPolicyConnections) Allowed() *common.ConnectionSet { return v.pc.AllowedConns }
+func (v *VerifPolicyConnections) Denied() *common.ConnectionSet  { return v.pc.DeniedConns }
+func (v *VerifPolicyConnections) Pass() *common.ConnectionSet    { return v.pc.PassConns }
+func (v *VerifPolicyConnections) SetAllowed(c *common.ConnectionSet) {
+	v.pc.AllowedConns = c
+}
+func (v *VerifPolicyConnections) UpdateWithRuleConns(c *common.ConnectionSet, action string, banp bool) error {
+	return v.pc.UpdateWithRuleConns(c, action, banp)
+}
+func (v *VerifPolicyConnections) CollectANPConns(o *VerifPolicyConnections) { v.pc.CollectANPConns(o.pc) }
+func (v *VerifPolicyConnections) CollectAllowedConnsFromNetpols(o *VerifPolicyConnections) {
+	v.pc.CollectAllowedConnsFromNetpols(o.pc)
+}
+func (v *VerifPolicyConnections) CollectConnsFromBANP(o *VerifPolicyConnections) {
+	v.pc.CollectConnsFromBANP(o.pc)
+}
+func (v *VerifPolicyConnections) IsEmpty() bool            { return v.pc.IsEmpty() }
+func (v *VerifPolicyConnections) DeterminesAllConns() bool { return v.pc.DeterminesAllConns() }
